@@ -48,9 +48,20 @@ pub enum Stmt {
     Trap(u32, u8),
 }
 
-#[derive(Clone, Debug)]
+#[derive(Clone, Debug, Default)]
 pub struct Prog {
     pub task: Option<usize>,
+    pub body: Vec<Stmt>,
+    /// the program declares `gain : DINT := 100 / divisor;` (divisor: RETAIN global): its instance
+    /// cannot be re-created by a warm restart while divisor = 0
+    pub init_div: bool,
+    /// function block instances `u<j>` of the program associated with a task (`(u<j> WITH T<t>)`)
+    pub fbs: Vec<FbSpec>,
+}
+
+#[derive(Clone, Debug)]
+pub struct FbSpec {
+    pub task: usize,
     pub body: Vec<Stmt>,
 }
 
@@ -118,7 +129,7 @@ pub struct RunLoop {
 }
 
 /// The global variables of every generated configuration: (name, IEC type, AT address or "").
-const VARS: [(&str, &str, &str); 9] = [
+const VARS: [(&str, &str, &str); 10] = [
     ("i0", "BYTE", "%IB0"),
     ("i1", "BYTE", "%IB1"),
     ("o0", "BYTE", "%QB0"),
@@ -128,8 +139,10 @@ const VARS: [(&str, &str, &str); 9] = [
     ("o4", "LWORD", "%QL8"),
     ("m0", "BYTE", "%MB0"),
     ("pv", "INT", ""),
+    ("divisor", "DINT", ""),
 ];
 const PV: usize = 8;
+const DIVISOR: usize = 9;
 const PV_ADDR: &str = "%QB16";
 
 fn var_index(name: &str) -> Option<usize> {
@@ -260,25 +273,53 @@ pub fn gen_case(rng: &mut Rng) -> Case {
     let pubtrap = rng.chance(1, 4);
     // how this case is going to fault (several may be chosen)
     let want_trap = rng.chance(1, 2);
+    let gen_body = |rng: &mut Rng, max: u64| -> Vec<Stmt> {
+        let len = 1 + rng.below(max) as usize;
+        (0..len)
+            .map(|_| match rng.below(10) {
+                0..=2 => Stmt::Tick,
+                3..=6 => gen_set(rng, pubtrap),
+                _ => match rng.below(4) {
+                    0 => Stmt::Copy(2, 0),
+                    1 => Stmt::Copy(2, 1),
+                    2 => Stmt::Copy(7, 0),
+                    _ => Stmt::Copy(2, 7),
+                },
+            })
+            .collect()
+    };
+    // restarts that fail half-way: some programs have an initialiser dividing by the RETAIN global
+    // `divisor`, and somebody (a program statement or a debugger write) may set it to 0
+    let want_init_div = rng.chance(2, 5);
     let mut progs: Vec<Prog> = (0..nprogs)
         .map(|_| {
             let task = if ntasks > 0 && rng.chance(3, 4) { Some(rng.below(ntasks as u64) as usize) } else { None };
-            let len = 1 + rng.below(5) as usize;
-            let body = (0..len)
-                .map(|_| match rng.below(10) {
-                    0..=2 => Stmt::Tick,
-                    3..=6 => gen_set(rng, pubtrap),
-                    _ => match rng.below(4) {
-                        0 => Stmt::Copy(2, 0),
-                        1 => Stmt::Copy(2, 1),
-                        2 => Stmt::Copy(7, 0),
-                        _ => Stmt::Copy(2, 7),
-                    },
+            let body = gen_body(rng, 5);
+            // function block instances associated with tasks (run after the task's programs)
+            let nfb = if ntasks > 0 && rng.chance(2, 5) { 1 + rng.below(2) as usize } else { 0 };
+            let fbs = (0..nfb)
+                .map(|_| {
+                    // mostly the program's own task (so the FB runs right after it), sometimes another
+                    let t = match task {
+                        Some(t) if rng.chance(2, 3) => t,
+                        _ => rng.below(ntasks as u64) as usize,
+                    };
+                    let mut body = gen_body(rng, 3);
+                    if rng.chance(1, 5) {
+                        let pos = rng.below(body.len() as u64 + 1) as usize;
+                        body.insert(pos, Stmt::Trap(1 + rng.below(6) as u32, *rng.pick(&[0u8, 1, 3])));
+                    }
+                    FbSpec { task: t, body }
                 })
                 .collect();
-            Prog { task, body }
+            Prog { task, body, init_div: want_init_div && rng.chance(1, 2), fbs }
         })
         .collect();
+    if want_init_div {
+        let p = rng.below(nprogs as u64) as usize;
+        let pos = rng.below(progs[p].body.len() as u64 + 1) as usize;
+        progs[p].body.insert(pos, Stmt::Set(DIVISOR, *rng.pick(&[0i64, 0, 4])));
+    }
     if want_trap {
         let ntraps = 1 + rng.below(2) as usize;
         for _ in 0..ntraps {
@@ -348,6 +389,8 @@ pub fn gen_case(rng: &mut Rng) -> Case {
                 let to_counter = rng.chance(1, 3);
                 let (var, v) = if to_counter {
                     (100 + rng.below(nprogs as u64) as usize, rng.below(8) as i64)
+                } else if want_init_div && rng.chance(1, 3) {
+                    (DIVISOR, *rng.pick(&[0i64, 0, 4]))
                 } else {
                     match gen_set(rng, true) {
                         Stmt::Set(var, v) => (var, v),
@@ -410,7 +453,7 @@ fn addr(text: &str) -> IoAddress {
 /// Hand-written cases that run first: the witnesses of the repaired defect (safe state stopped at
 /// the first failing address / driver) and the central scenarios of the property.
 pub fn corpus() -> Vec<Case> {
-    let tick_prog = |task: Option<usize>, body: Vec<Stmt>| Prog { task, body };
+    let tick_prog = |task: Option<usize>, body: Vec<Stmt>| Prog { task, body, ..Prog::default() };
     let cycles = |n: usize| -> Vec<OpSpec> {
         (0..n).flat_map(|_| vec![OpSpec::Adv(10 * MS), OpSpec::Cycle]).collect()
     };
@@ -569,6 +612,69 @@ pub fn corpus() -> Vec<Case> {
             runloop: Some(RunLoop { interval_ms: 10, wd_enabled: false, over: false, budget: 4, sim_fails: true }),
         });
     }
+    // 9: a runtime error in a PROGRAM of a task that also runs FB instances: the task must stop at
+    //    the program's error (the FB instance does not run, the cycle reports it, the resource faults)
+    {
+        let mut ops = vec![
+            OpSpec::Policy(FaultPolicy::SafeHalt),
+            OpSpec::Safe(vec![(addr("%QB0"), Value::Byte(0xA5))]),
+        ];
+        ops.extend(cycles(5));
+        out.push(Case {
+            tasks: vec![TaskSpec { interval_ms: 10, priority: 0 }, TaskSpec { interval_ms: 10, priority: 1 }],
+            progs: vec![
+                Prog {
+                    task: Some(0),
+                    body: vec![Stmt::Set(2, 0x41), Stmt::Trap(2, 0), Stmt::Set(2, 0x42)],
+                    init_div: false,
+                    fbs: vec![FbSpec { task: 0, body: vec![Stmt::Tick] }, FbSpec { task: 1, body: vec![Stmt::Set(3, 0x0BAD)] }],
+                },
+                tick_prog(Some(1), vec![Stmt::Tick]),
+                tick_prog(None, vec![Stmt::Tick]),
+            ],
+            drivers: vec![DrvScript::default()],
+            retain: None,
+            pubtrap: false,
+            resize: Some((2, 17, 1)),
+            expired_at: vec![],
+            runloop: None,
+            ops,
+        });
+    }
+    // 10: a restart that fails half-way is not a restart: fault under safe_halt, warm restart while the
+    //     RETAIN divisor is 0 (the second program's initialiser divides by it) returns an error, the latch
+    //     stays, cycles stay refused, the safe image stays; a cold restart then succeeds
+    {
+        let mut ops = vec![
+            OpSpec::Policy(FaultPolicy::SafeHalt),
+            OpSpec::Safe(vec![(addr("%QB0"), Value::Byte(0xA5))]),
+        ];
+        ops.extend(cycles(2));
+        ops.push(OpSpec::VarWrite { var: DIVISOR, v: 0, by_instance_id: false });
+        ops.extend(cycles(1));
+        ops.push(OpSpec::SimFault);
+        ops.push(OpSpec::Restart(RestartMode::Warm));
+        ops.extend(cycles(3));
+        ops.push(OpSpec::Restart(RestartMode::Warm));
+        ops.extend(cycles(1));
+        ops.push(OpSpec::Restart(RestartMode::Cold));
+        ops.extend(cycles(2));
+        out.push(Case {
+            tasks: vec![],
+            progs: vec![
+                tick_prog(None, vec![Stmt::Set(2, 0x51)]),
+                Prog { task: None, body: vec![Stmt::Tick], init_div: true, fbs: vec![] },
+                tick_prog(None, vec![Stmt::Tick]),
+            ],
+            drivers: vec![DrvScript::default()],
+            retain: None,
+            pubtrap: false,
+            resize: Some((2, 17, 1)),
+            expired_at: vec![],
+            runloop: None,
+            ops,
+        });
+    }
     out
 }
 
@@ -607,6 +713,7 @@ fn typed_value(var: usize, v: i64) -> Value {
         "WORD" => Value::Word(v as u16),
         "DWORD" => Value::DWord(v as u32),
         "LWORD" => Value::LWord(v as u64),
+        "DINT" => Value::DInt(v as i32),
         _ => Value::Int(v as i16),
     }
 }
@@ -615,19 +722,48 @@ fn literal(var: usize, v: i64) -> String {
     match VARS[var].1 {
         "BOOL" => (if v != 0 { "TRUE" } else { "FALSE" }).to_string(),
         "INT" => format!("INT#{v}"),
+        "DINT" => format!("DINT#{v}"),
         ty => format!("{ty}#16#{:X}", v as u64),
     }
 }
 
+fn render_body(s: &mut String, body: &[Stmt], in_fb: bool) {
+    s.push_str("n := n + 1; steps := steps + 1; stamp := steps; cnt := 1; tog := NOT tog;\n");
+    for st in body {
+        s.push_str("steps := steps + 1; cnt := cnt + 1; ");
+        match st {
+            Stmt::Tick => {}
+            Stmt::Set(var, v) => s.push_str(&format!("{} := {};", VARS[*var].0, literal(*var, *v))),
+            Stmt::Copy(d, src) => s.push_str(&format!("{} := {};", VARS[*d].0, VARS[*src].0)),
+            Stmt::Trap(c, kind) => {
+                let action = match kind {
+                    0 => "z := 100 / zero;".to_string(),
+                    1 => "z := Boom(zero);".to_string(),
+                    2 if !in_fb => "fb(d := zero);".to_string(),
+                    2 => "z := Boom(zero);".to_string(),
+                    _ => "idx := 7; z := arr[idx];".to_string(),
+                };
+                s.push_str(&format!("IF n = {c} THEN {action} END_IF;"));
+            }
+        }
+        s.push('\n');
+    }
+}
+
+const UNIT_VARS: &str = "    n : DINT := 0;\n    cnt : DINT := 0;\n    stamp : DINT := 0;\n    tog : BOOL := FALSE;\n    zero : DINT := 0;\n    z : DINT := 0;\n    idx : DINT := 0;\n    arr : ARRAY[0..3] OF DINT;\n";
+
 pub fn render_source(case: &Case) -> String {
     let mut s = String::new();
-    s.push_str("CONFIGURATION C\n");
+    s.push_str("CONFIGURATION C\nVAR_GLOBAL RETAIN\n    divisor : DINT := 4;\n");
     if case.retain.is_some() {
-        s.push_str("VAR_GLOBAL RETAIN\n    steps : DINT := 0;\nEND_VAR\nVAR_GLOBAL\n");
+        s.push_str("    steps : DINT := 0;\nEND_VAR\nVAR_GLOBAL\n");
     } else {
-        s.push_str("VAR_GLOBAL\n    steps : DINT := 0;\n");
+        s.push_str("END_VAR\nVAR_GLOBAL\n    steps : DINT := 0;\n");
     }
-    for (name, ty, at) in VARS.iter() {
+    for (i, (name, ty, at)) in VARS.iter().enumerate() {
+        if i == DIVISOR {
+            continue;
+        }
         if at.is_empty() {
             s.push_str(&format!("    {name} : {ty};\n"));
         } else {
@@ -639,42 +775,46 @@ pub fn render_source(case: &Case) -> String {
         s.push_str(&format!("TASK T{i} (INTERVAL := T#{}ms, PRIORITY := {});\n", t.interval_ms, t.priority));
     }
     for (p, prog) in case.progs.iter().enumerate() {
+        let assoc = if prog.fbs.is_empty() {
+            String::new()
+        } else {
+            format!(" ({})", join(prog.fbs.iter().enumerate().map(|(j, f)| format!("u{j} WITH T{}", f.task)), ", "))
+        };
         match prog.task {
-            Some(t) => s.push_str(&format!("PROGRAM I{p} WITH T{t} : Prog{p};\n")),
-            None => s.push_str(&format!("PROGRAM I{p} : Prog{p};\n")),
+            Some(t) => s.push_str(&format!("PROGRAM I{p} WITH T{t} : Prog{p}{assoc};\n")),
+            None => s.push_str(&format!("PROGRAM I{p} : Prog{p}{assoc};\n")),
         }
     }
     s.push_str("END_CONFIGURATION\n\n");
-    s.push_str("FUNCTION Boom : DINT\nVAR_INPUT d : DINT; END_VAR\nBoom := 100 / d;\nEND_FUNCTION\n\n");
-    s.push_str("FUNCTION_BLOCK FbBoom\nVAR_INPUT d : DINT; END_VAR\nVAR r : DINT; END_VAR\nr := Boom(d);\nEND_FUNCTION_BLOCK\n\n");
-    for (p, prog) in case.progs.iter().enumerate() {
-        s.push_str(&format!("PROGRAM Prog{p}\nVAR_EXTERNAL\n    steps : DINT;\n"));
-        for (name, ty, _) in VARS.iter() {
-            s.push_str(&format!("    {name} : {ty};\n"));
-        }
-        s.push_str("END_VAR\nVAR\n    n : DINT := 0;\n    cnt : DINT := 0;\n    stamp : DINT := 0;\n    zero : DINT := 0;\n    z : DINT := 0;\n    idx : DINT := 0;\n    fb : FbBoom;\n    arr : ARRAY[0..3] OF DINT;\nEND_VAR\n");
-        s.push_str("n := n + 1; steps := steps + 1; stamp := steps; cnt := 1;\n");
-        for st in &prog.body {
-            s.push_str("steps := steps + 1; cnt := cnt + 1; ");
-            match st {
-                Stmt::Tick => {}
-                Stmt::Set(var, v) => s.push_str(&format!("{} := {};", VARS[*var].0, literal(*var, *v))),
-                Stmt::Copy(d, src) => s.push_str(&format!("{} := {};", VARS[*d].0, VARS[*src].0)),
-                Stmt::Trap(c, kind) => {
-                    let action = match kind {
-                        0 => "z := 100 / zero;".to_string(),
-                        1 => "z := Boom(zero);".to_string(),
-                        2 => "fb(d := zero);".to_string(),
-                        _ => "idx := 7; z := arr[idx];".to_string(),
-                    };
-                    s.push_str(&format!("IF n = {c} THEN {action} END_IF;"));
-                }
-            }
-            s.push('\n');
-        }
-        s.push_str("END_PROGRAM\n\n");
+    let mut externals = String::from("VAR_EXTERNAL\n    steps : DINT;\n");
+    for (name, ty, _) in VARS.iter() {
+        externals.push_str(&format!("    {name} : {ty};\n"));
     }
-    s
+    externals.push_str("END_VAR\n");
+    let mut pous = String::new();
+    pous.push_str("FUNCTION Boom : DINT\nVAR_INPUT d : DINT; END_VAR\nBoom := 100 / d;\nEND_FUNCTION\n\n");
+    pous.push_str("FUNCTION_BLOCK FbBoom\nVAR_INPUT d : DINT; END_VAR\nVAR r : DINT; END_VAR\nr := Boom(d);\nEND_FUNCTION_BLOCK\n\n");
+    for (p, prog) in case.progs.iter().enumerate() {
+        for (j, f) in prog.fbs.iter().enumerate() {
+            pous.push_str(&format!("FUNCTION_BLOCK FbU{p}x{j}\n{externals}VAR\n{UNIT_VARS}END_VAR\n"));
+            render_body(&mut pous, &f.body, true);
+            pous.push_str("END_FUNCTION_BLOCK\n\n");
+        }
+    }
+    for (p, prog) in case.progs.iter().enumerate() {
+        pous.push_str(&format!("PROGRAM Prog{p}\n{externals}VAR\n{UNIT_VARS}    fb : FbBoom;\n"));
+        if prog.init_div {
+            pous.push_str("    gain : DINT := 100 / divisor;\n");
+        }
+        for j in 0..prog.fbs.len() {
+            pous.push_str(&format!("    u{j} : FbU{p}x{j};\n"));
+        }
+        pous.push_str("END_VAR\n");
+        render_body(&mut pous, &prog.body, false);
+        pous.push_str("END_PROGRAM\n\n");
+    }
+    // POUs first so that the configuration and the program types can refer to them
+    format!("{pous}{s}")
 }
 
 // ------------------------------------------------------------------------------------------
@@ -928,8 +1068,10 @@ struct Running {
     hier_seen: Vec<IoAddress>,
     nprogs: usize,
     ntasks: usize,
-    /// restarts that re-created the program instances so far
-    gen: usize,
+    /// per program: how often a restart has given it a new instance so far
+    gens: Vec<usize>,
+    /// the task-associated FB instances, as the references the tasks hold (unit `100 + f`)
+    fb_refs: Vec<trust_runtime::value::ValueRef>,
 }
 
 impl Running {
@@ -985,6 +1127,7 @@ impl Running {
                 Some(Value::DWord(v)) => i128::from(*v),
                 Some(Value::LWord(v)) => i128::from(*v),
                 Some(Value::Int(v)) => i128::from(*v),
+                Some(Value::DInt(v)) => i128::from(*v),
                 other => panic!("global {name}: {other:?}"),
             })
             .collect();
@@ -994,36 +1137,61 @@ impl Running {
         (gv, ns)
     }
 
+    fn fb_counters(&self) -> Vec<i64> {
+        (0..self.fb_refs.len()).map(|f| as_i64(self.unit_var(100 + f, "n").as_ref())).collect()
+    }
+
     fn steps(&self) -> i64 {
         as_i64(self.h.runtime().storage().get_global("steps"))
     }
 
-    /// Programs that ran since `steps_before`, in execution order, with their statement counts.
-    fn ran(&self, steps_before: i64) -> Vec<(usize, i64)> {
-        let rt = self.h.runtime();
-        let mut v: Vec<(i64, usize, i64)> = (0..self.nprogs)
-            .filter_map(|p| {
-                let id = match rt.storage().get_global(&format!("I{p}")) {
-                    Some(Value::Instance(id)) => *id,
-                    other => panic!("program instance I{p}: {other:?}"),
-                };
-                let stamp = as_i64(rt.storage().get_instance_var(id, "stamp"));
-                let cnt = as_i64(rt.storage().get_instance_var(id, "cnt"));
-                (stamp > steps_before).then_some((stamp, p, cnt))
-            })
-            .collect();
-        v.sort();
-        v.into_iter().map(|(_, p, c)| (p, c)).collect()
+    /// The instance a unit's code runs on: the program's current instance, or for an FB unit the
+    /// instance the task's reference resolves to.
+    fn unit_instance(&self, unit: usize) -> Option<trust_runtime::memory::InstanceId> {
+        if unit < 100 {
+            return Some(self.instance_id(unit));
+        }
+        match self.h.runtime().storage().read_by_ref(self.fb_refs[unit - 100].clone()) {
+            Some(Value::Instance(id)) => Some(*id),
+            _ => None,
+        }
     }
 
-    fn observe(&self, err: Option<&RuntimeError>, steps_before: i64, restarted: bool, changed: Option<bool>) -> String {
+    fn units(&self) -> Vec<usize> {
+        (0..self.nprogs).chain((0..self.fb_refs.len()).map(|f| 100 + f)).collect()
+    }
+
+    fn unit_var(&self, unit: usize, name: &str) -> Option<Value> {
+        let id = self.unit_instance(unit)?;
+        self.h.runtime().storage().get_instance_var(id, name).cloned()
+    }
+
+    /// The activation toggles of all units (flipped by the header of every body).
+    fn toggles(&self) -> Vec<Option<Value>> {
+        self.units().into_iter().map(|u| self.unit_var(u, "tog")).collect()
+    }
+
+    /// Units that ran since `before` was taken, in execution order, with their statement counts.
+    fn ran(&self, before: &[Option<Value>]) -> Vec<(usize, i64)> {
+        let mut v: Vec<(i64, usize, i64)> = self
+            .units()
+            .into_iter()
+            .zip(before.iter())
+            .filter(|(u, b)| self.unit_var(*u, "tog") != **b)
+            .map(|(u, _)| (as_i64(self.unit_var(u, "stamp").as_ref()), u, as_i64(self.unit_var(u, "cnt").as_ref())))
+            .collect();
+        v.sort();
+        v.into_iter().map(|(_, u, c)| (u, c)).collect()
+    }
+
+    fn observe(&self, err: Option<&RuntimeError>, before: &[Option<Value>], restarted: bool, changed: Option<bool>) -> String {
         let rt = self.h.runtime();
         let evs = {
             let mut sh = self.shared.lock().unwrap();
             drain_events(&self.control, &mut sh);
             std::mem::take(&mut sh.log)
         };
-        let ran = if restarted { Vec::new() } else { self.ran(steps_before) };
+        let ran = if restarted { Vec::new() } else { self.ran(before) };
         let sr: Vec<String> = self
             .safe
             .iter()
@@ -1039,7 +1207,7 @@ impl Running {
             u8::from(rt.faulted()),
             rt.last_fault().map(canon_err).unwrap_or_else(|| "-".into()),
             self.steps(),
-            if ran.is_empty() { "-".to_string() } else { join(ran.iter().map(|(p, c)| format!("{p}:{c}")), ",") },
+            if ran.is_empty() { "-".to_string() } else { join(ran.iter().map(|(u, c)| if *u >= 100 { format!("f{}:{c}", u - 100) } else { format!("{u}:{c}") }), ",") },
             hex(rt.io().inputs()),
             hex(rt.io().outputs()),
             hex(rt.io().memory()),
@@ -1048,7 +1216,7 @@ impl Running {
             rt.current_time().as_nanos(),
         );
         let (gv, ns) = self.variables();
-        line.push_str(&format!(" gv={} ns={}", join(gv.iter(), ","), join(ns.iter(), ",")));
+        line.push_str(&format!(" gv={} ns={} fn={}", join(gv.iter(), ","), join(ns.iter(), ","), join(self.fb_counters().iter(), ",")));
         if let Some(ch) = changed {
             line.push_str(&format!(" ch={}", u8::from(ch)));
         }
@@ -1101,20 +1269,56 @@ pub fn run_case(n: u64, case: &Case, out: &mut Out) -> Result<(), String> {
     if rt_tasks.len() != case.tasks.len() || h.runtime().programs().len() != case.progs.len() {
         return Err("configuration shape differs".into());
     }
+    // FB units in generator order: (owner program, member index) -> unit index, and the instance
+    // each member currently is
+    let mut fb_units: Vec<(usize, usize)> = Vec::new();
+    for (p, prog) in case.progs.iter().enumerate() {
+        for j in 0..prog.fbs.len() {
+            fb_units.push((p, j));
+        }
+    }
+    let fb_ids: Vec<_> = fb_units
+        .iter()
+        .map(|(p, j)| {
+            let owner = match h.runtime().storage().get_global(&format!("I{p}")) {
+                Some(Value::Instance(id)) => *id,
+                other => panic!("program instance I{p}: {other:?}"),
+            };
+            match h.runtime().storage().get_instance_var(owner, &format!("u{j}")) {
+                Some(Value::Instance(id)) => *id,
+                other => panic!("FB member I{p}.u{j}: {other:?}"),
+            }
+        })
+        .collect();
+    let mut fb_refs: Vec<Option<trust_runtime::value::ValueRef>> = vec![None; fb_units.len()];
+    let mut task_fbs: Vec<Vec<usize>> = Vec::new();
     for t in rt_tasks.iter() {
         let progs: Vec<usize> = t
             .programs
             .iter()
             .map(|name| name.as_str()[1..].parse::<usize>().map_err(|_| format!("program name {name}")))
             .collect::<Result<_, _>>()?;
-        if t.single.is_some() || !t.fb_instances.is_empty() {
+        if t.single.is_some() {
             return Err("unexpected task shape".into());
         }
         out.line(format!("task {} {} {}", t.interval.as_nanos(), t.priority, join(progs.iter(), " ")));
+        // the FB instances the runtime's task holds, in the runtime's order
+        let mut fs = Vec::new();
+        for r in &t.fb_instances {
+            let id = match h.runtime().storage().read_by_ref(r.clone()) {
+                Some(Value::Instance(id)) => *id,
+                other => return Err(format!("task FB reference resolves to {other:?}")),
+            };
+            let f = fb_ids.iter().position(|x| *x == id).ok_or("task FB reference to an unknown instance")?;
+            fb_refs[f] = Some(r.clone());
+            fs.push(f);
+        }
+        task_fbs.push(fs);
     }
-    for (p, prog) in case.progs.iter().enumerate() {
-        let body: Vec<String> = prog
-            .body
+    let fb_refs: Vec<trust_runtime::value::ValueRef> =
+        fb_refs.into_iter().collect::<Option<Vec<_>>>().ok_or("an associated FB instance is in no task")?;
+    let enc_body = |body: &[Stmt]| -> String {
+        let items: Vec<String> = body
             .iter()
             .map(|s| match s {
                 Stmt::Tick => "T".to_string(),
@@ -1123,7 +1327,20 @@ pub fn run_case(n: u64, case: &Case, out: &mut Out) -> Result<(), String> {
                 Stmt::Trap(c, k) => format!("X:{c}:{}", u8::from(*k == 3)),
             })
             .collect();
-        out.line(format!("prog {p} {}", if body.is_empty() { "-".into() } else { body.join(" ") }));
+        if items.is_empty() { "-".into() } else { items.join(" ") }
+    };
+    for (p, prog) in case.progs.iter().enumerate() {
+        out.line(format!("prog {p} {}", enc_body(&prog.body)));
+    }
+    out.line(format!("initdiv {}", join(case.progs.iter().map(|p| u8::from(p.init_div)), " ")));
+    for (f, (p, j)) in fb_units.iter().enumerate() {
+        out.line(format!("fb {f} {p} {}", enc_body(&case.progs[*p].fbs[*j].body)));
+        out.count("fb_units");
+    }
+    for (t, fs) in task_fbs.iter().enumerate() {
+        if !fs.is_empty() {
+            out.line(format!("taskfb {t} {}", join(fs.iter(), " ")));
+        }
     }
     for b in h.runtime().io().bindings() {
         let name = match (&b.target, &b.display_name) {
@@ -1155,6 +1372,7 @@ pub fn run_case(n: u64, case: &Case, out: &mut Out) -> Result<(), String> {
                 Some(Value::DWord(v)) => i64::from(*v),
                 Some(Value::LWord(v)) => *v as i64,
                 Some(Value::Int(v)) => i64::from(*v),
+                Some(Value::DInt(v)) => i64::from(*v),
                 other => panic!("global {name}: {other:?}"),
             })
             .collect();
@@ -1180,13 +1398,14 @@ pub fn run_case(n: u64, case: &Case, out: &mut Out) -> Result<(), String> {
         hier_seen: Vec::new(),
         nprogs: case.progs.len(),
         ntasks: case.tasks.len(),
-        gen: 0,
+        gens: vec![0; case.progs.len()],
+        fb_refs,
     };
     // ---- history
     let mut fault_seen = false;
     let mut refused_after_fault = false;
     for op in &case.ops {
-        let steps_before = run.steps();
+        let before = run.toggles();
         let mut err: Option<RuntimeError> = None;
         let mut restarted = false;
         let mut changed = None;
@@ -1287,26 +1506,34 @@ pub fn run_case(n: u64, case: &Case, out: &mut Out) -> Result<(), String> {
                 fault_seen = true;
             }
             OpSpec::Restart(mode) => {
-                let before = run.instance_id(0);
-                run.h.restart(*mode).map_err(|e| format!("restart failed: {e}"))?;
-                // whether restart re-creates the program instances is C09's subject: report it
-                let fresh = run.instance_id(0) != before;
-                if fresh {
-                    run.gen += 1;
+                let ids: Vec<_> = (0..run.nprogs).map(|p| run.instance_id(p)).collect();
+                let was_faulted = run.h.runtime().faulted();
+                err = run.h.restart(*mode).err();
+                // Whether restart gives a program a new instance is C09's subject: report, per program,
+                // what it did (a restart that failed half-way did not reach the later programs).
+                let changed_ids: Vec<bool> = (0..run.nprogs).map(|p| run.instance_id(p) != ids[p]).collect();
+                let fresh = changed_ids.clone();
+                for p in 0..run.nprogs {
+                    if changed_ids[p] {
+                        run.gens[p] += 1;
+                    }
                 }
                 out.line(format!(
                     "restart {} {}",
                     if matches!(mode, RestartMode::Warm) { "warm" } else { "cold" },
-                    u8::from(fresh)
+                    join(fresh.iter().map(|f| u8::from(*f)), " ")
                 ));
                 restarted = true;
                 out.count("op_restart");
+                if err.is_some() {
+                    out.count(if was_faulted { "restart_failed_while_faulted" } else { "restart_failed" });
+                }
             }
             OpSpec::VarWrite { var, v, by_instance_id } => {
                 let value = typed_value(*var, *v);
                 if *var >= 100 && *by_instance_id {
                     let p = var - 100;
-                    out.line(format!("vw {} {v}", 1000 * (run.gen + 1) + p));
+                    out.line(format!("vw {} {v}", 1000 * (run.gens[p] + 1) + p));
                     run.control.enqueue_instance_write(run.instance_id(p), "n", value);
                 } else if *var >= 100 {
                     unreachable!("counter writes go by instance id or by l-value");
@@ -1343,7 +1570,7 @@ pub fn run_case(n: u64, case: &Case, out: &mut Out) -> Result<(), String> {
                 out.count("op_clear");
             }
         }
-        out.line(run.observe(err.as_ref(), steps_before, restarted, changed));
+        out.line(run.observe(err.as_ref(), &before, restarted, changed));
     }
     let mut runner_fault = false;
     if let Some(rl) = &case.runloop {
@@ -1421,7 +1648,7 @@ pub fn run_case(n: u64, case: &Case, out: &mut Out) -> Result<(), String> {
 fn probe(kind: &str) -> i32 {
     let case = Case {
         tasks: vec![],
-        progs: vec![Prog { task: None, body: vec![Stmt::Set(2, 0x31)] }],
+        progs: vec![Prog { task: None, body: vec![Stmt::Set(2, 0x31)], ..Prog::default() }],
         drivers: vec![DrvScript::default()],
         retain: None,
         pubtrap: false,
